@@ -124,31 +124,53 @@ def combinedRefseqGaps (seqGaps unionGaps : Gaps) : Gaps :=
   let d := gapDifference seqGaps unionGaps
   updateDiff s2a d.1 (subsetToAlign seqGaps s2a d.2 [])
 
-def injectLoop (a2s : GapOffset) (seqlen : Int) : Gaps → Gaps → Except String Gaps
+/-- (repaired variant only) the gaps of the other sequence as (alignment start, alignment end, seq position) -/
+def gapSpans : Gaps → Int → List (Int × Int × Int)
+  | [], _ => []
+  | (p, l) :: r, tot => (p + tot, p + tot + l, p) :: gapSpans r (tot + l)
+
+/-- `spans[bisect_left(starts, c) - 1]` when that index is `>= 0`: the last span starting before `c` -/
+def spanBefore : List (Int × Int × Int) → Int → Option (Int × Int × Int) → Option (Int × Int × Int)
+  | [], _, cur => cur
+  | sp :: r, c, cur => if sp.1 < c then spanBefore r c (some sp) else cur
+
+/-- alignment column → position in the other sequence.
+`fixed = false`: the code as pinned (`gap_pos - aln2seq[gap_pos]`);
+`fixed = true`: the proposed repair `fixes/C18-p2m-gap-injection.patch` (a column strictly inside a gap of the
+other sequence belongs to that gap). -/
+def injectPos (fixed : Bool) (a2s : GapOffset) (spans : List (Int × Int × Int)) (gp : Int) : Int :=
+  if fixed then
+    match spanBefore spans gp none with
+    | some sp => if gp < sp.2.1 then sp.2.2 else gp - a2s.get gp
+    | none => gp - a2s.get gp
+  else gp - a2s.get gp
+
+def injectLoop (fixed : Bool) (a2s : GapOffset) (spans : List (Int × Int × Int)) (seqlen : Int) :
+    Gaps → Gaps → Except String Gaps
   | [], all => .ok all
   | (gp, gl) :: r, all =>
-    let gp' := min seqlen (gp - a2s.get gp)
+    let gp' := min seqlen (injectPos fixed a2s spans gp)
     if gp' < 0 then .error "ValueError"
-    else injectLoop a2s seqlen r (dset all gp' (match dget all gp' with | some x => gl + x | none => gl))
+    else injectLoop fixed a2s spans seqlen r (dset all gp' (match dget all gp' with | some x => gl + x | none => gl))
 
 /-- `_gaps_for_injection` -/
-def gapsForInjection (other refGaps : Gaps) (seqlen : Int) : Except String Gaps :=
-  injectLoop (GapOffset.mk' other true) seqlen (sortGaps refGaps) other
+def gapsForInjection (fixed : Bool) (other refGaps : Gaps) (seqlen : Int) : Except String Gaps :=
+  injectLoop fixed (GapOffset.mk' other true) (gapSpans (sortGaps other) 0) seqlen (sortGaps refGaps) other
 
-def injectAll (unionGaps : Gaps) : List (Gaps × Gaps × Int) → Except String (List Gaps)
+def injectAll (fixed : Bool) (unionGaps : Gaps) : List (Gaps × Gaps × Int) → Except String (List Gaps)
   | [] => .ok []
   | (rg, og, len) :: r =>
-    match gapsForInjection og (combinedRefseqGaps rg unionGaps) len with
+    match gapsForInjection fixed og (combinedRefseqGaps rg unionGaps) len with
     | .error e => .error e
-    | .ok inj => match injectAll unionGaps r with
+    | .ok inj => match injectAll fixed unionGaps r with
       | .error e => .error e
       | .ok rest => .ok (inj :: rest)
 
 /-- `pairwise_to_multiple` on gap dicts: input per pair (ref-row gaps, other-row gaps, other length);
 output (gaps of the reference row, gaps of every other row) -/
-def pairwiseToMultiple (_reflen : Int) (pw : List (Gaps × Gaps × Int)) : Except String (Gaps × List Gaps) :=
+def pairwiseToMultiple (fixed : Bool) (_reflen : Int) (pw : List (Gaps × Gaps × Int)) : Except String (Gaps × List Gaps) :=
   let u := gapUnion (pw.map (·.1)) []
-  match injectAll u pw with
+  match injectAll fixed u pw with
   | .error e => .error e
   | .ok others => .ok (u, others)
 
@@ -177,8 +199,8 @@ def keepsList (reflen : Int) (u : Gaps) : List (Gaps × Gaps × Int) → List Ga
   | [], [] => true
   | _, _ => false
 
-def keepsAll (reflen : Int) (pw : List (Gaps × Gaps × Int)) : Bool :=
-  match pairwiseToMultiple reflen pw with
+def keepsAll (fixed : Bool) (reflen : Int) (pw : List (Gaps × Gaps × Int)) : Bool :=
+  match pairwiseToMultiple fixed reflen pw with
   | .error _ => false
   | .ok (u, others) => keepsList reflen u pw others
 
